@@ -54,6 +54,30 @@ def programs(tier, b, seed):
             B.add({"op": "bin", "name": op, "a": rx, "b": {"c": c_}, "tag": "main"})
             B.add({"op": "meth", "name": "check_zero", "a": rz})
             progs.append(B.build())
+    ops1 = {"rshift": lambda r: {"op": "bin", "name": "rshift", "a": r, "b": {"c": 1}}, "to_bits": lambda r: {"op": "meth", "name": "to_bits", "a": r},
+            "lt": lambda r: {"op": "bin", "name": "lt", "a": r, "b": {"c": 0}}, "and": lambda r: {"op": "bin", "name": "and", "a": r, "b": {"c": 1}},
+            "abs": lambda r: {"op": "un", "name": "abs", "a": r}, "bool": lambda r: {"op": "call", "fn": "ensurebool", "args": [r]}}
+    ops2 = {"rshift": lambda r: {"op": "bin", "name": "rshift", "a": r, "b": {"c": 1}}, "or": lambda r: {"op": "bin", "name": "or", "a": r, "b": r},
+            "xor": lambda r: {"op": "bin", "name": "xor", "a": r, "b": r}, "invert": lambda r: {"op": "un", "name": "invert", "a": r},
+            "lt": lambda r: {"op": "bin", "name": "lt", "a": r, "b": {"c": 1}}, "abs": lambda r: {"op": "un", "name": "abs", "a": r},
+            "pow": lambda r: {"op": "bin", "name": "pow", "a": {"c": 2}, "b": r}, "check_positive": lambda r: {"op": "meth", "name": "check_positive", "a": r}}
+    lim_ = 1 << (b - 1)
+    for n1, f1 in ops1.items():
+        for n2, f2 in ops2.items():
+            for x in (-lim_ - 1, -lim_, -1, 0, 1, lim_ - 1, lim_, lim_ + 1, 2 * lim_):
+                for how in ("g0", "ign"):
+                    B = gen.Builder("b%d/sameobj/%s-%s/%d/%s" % (b, n1, n2, x, how), "plain", None, {"op": n2, "kinds": "sameobj-" + how})
+                    rx = B.opnd(("S", x))
+                    if how == "g0":
+                        B.add({"op": "guarded", "cond": B.opnd(("SB", 0)), "body": [f1(rx)]})
+                    else:
+                        B.add({"op": "ignore", "v": True})
+                        B.add({"op": "try", "body": [f1(rx)]})
+                        B.add({"op": "ignore", "v": False})
+                    st = f2(rx)
+                    st["tag"] = "main"
+                    B.add(st)
+                    progs.append(B.build())
     rg = gen.RandGen(seed * 7919 + b, b)
     n = 400 if tier == "quick" else 6000
     for i in range(n):
